@@ -156,14 +156,21 @@ def drive(col: Collector, strategy, body, *, n_examples: int, seed: int, sub_che
 
     if not shrink_new:
         return
+    # keep the smallest recorded input per bucket first, then let Hypothesis shrink new buckets within a budget
+    col.failures.sort(key=lambda f: len(json.dumps(f["input"], default=str)))
+    budget = float(os.environ.get("VF_SHRINK_BUDGET_S", "20"))
+    t_start = time.time()
     new_buckets = []
     for f in col.failures:
         key = (f["sub_check"], f["bucket"])
         if f["bucket"] in known_buckets or key in new_buckets:
             continue
         new_buckets.append(key)
-    for sc, bucket in new_buckets[:4]:
-        minimal = shrink(strategy, body, col.prop, sc, bucket, seed=seed, n_examples=n_examples)
+    for sc, bucket in new_buckets[:3]:
+        left = budget - (time.time() - t_start)
+        if left <= 1:
+            break
+        minimal = shrink(strategy, body, col.prop, sc, bucket, seed=seed, n_examples=n_examples, budget_s=left)
         if minimal is not None:
             minimal["shrunk"] = True
             col.failures = [minimal] + col.failures
@@ -179,6 +186,9 @@ def shrink(strategy, body, prop, sub_check, bucket, *, seed, n_examples, budget_
     class _Hit(Exception):
         pass
 
+    class _Stop(BaseException):
+        pass
+
     @hypothesis.seed(seed)
     @settings(max_examples=n_examples, database=None, deadline=None, report_multiple_bugs=False,
               phases=[Phase.generate, Phase.shrink],
@@ -191,14 +201,15 @@ def shrink(strategy, body, prop, sub_check, bucket, *, seed, n_examples, budget_
             if f["sub_check"] == sub_check and f["bucket"] == bucket:
                 last.clear()
                 last.update(f)
-                if time.time() - t0 > budget_s:
-                    # stop shrinking: pretend the case passes from now on
-                    return
                 raise _Hit()
+        if time.time() - t0 > budget_s:
+            raise _Stop()
 
     try:
         _run()
     except _Hit:
+        pass
+    except _Stop:
         pass
     except Exception:
         pass
@@ -342,7 +353,8 @@ def finalize(prop: str, tier: str, seed: int, results: list[dict], *, rule: str,
     # 3. generator health: classes that matter must actually be produced
     gen_defects = []
     for cname, min_frac in (required_classes or {}).items():
-        frac = classes.get(cname, 0) / max(1, evaluations)
+        # value < 1: minimal fraction of all evaluations; value >= 1: minimal absolute count
+        frac = classes.get(cname, 0) / max(1, evaluations) if min_frac < 1 else classes.get(cname, 0)
         if classes.get(cname, 0) == 0 or frac < min_frac:
             gen_defects.append(f"class {cname!r} is {classes.get(cname, 0)}/{evaluations} (< {min_frac})")
 
